@@ -62,7 +62,7 @@ func (lr *liveRun) commitOf(h uint64) (bool, string) {
 func (lr *liveRun) acceptorsPending(h uint64, body string) []string {
 	var out []string
 	for _, n := range lr.live() {
-		if uint64(n.st.Height()) != h {
+		if uint64(n.st.Height()) != h || n.wedged {
 			continue
 		}
 		st := n.nodeState()
